@@ -177,7 +177,7 @@ theorem unused_empty (ns n d : Nat) : (Map.empty 3 ns n : Map Val).unused d = fa
   · rw [rd_oob]; rfl
     simp; omega
 
-/-! ## C. the three loops of `build_2d_from_cmap_file` -/
+/-! ## C. the loops of `build_2d_from_cmap_file` -/
 
 theorem atomically_setBetas {m : Map Val} (h : Sized 3 m) {d : Nat} (hd : d < m.n) (b0 b1 b2 : Nat) :
     atomically (setBetas d b0 b1 b2) m =
@@ -208,40 +208,88 @@ theorem β_setBetas {m : Map Val} (h : Sized 3 m) {d : Nat} (hd : d < m.n) (f : 
   · have : ¬ e = d := fun x => he x.symm
     simp [he, this]
 
-theorem betasLoop_ok (g : Nat → Nat → String) (f : Nat → Nat → Nat) :
+/-- the parsing loop on numerals `g i e` denoting `f i e` -/
+theorem parseRows_ok (g : Nat → Nat → String) (f : Nat → Nat → Nat) :
+    ∀ (k d : Nat), (∀ i, i < 3 → ∀ e, d ≤ e → e < d + k → parseU32 (g i e) = some (f i e)) →
+      parseRows ((List.range' d k).map (g 0)) ((List.range' d k).map (g 1))
+          ((List.range' d k).map (g 2)) =
+        .ok ((List.range' d k).map (f 0), (List.range' d k).map (f 1), (List.range' d k).map (f 2)) := by
+  intro k
+  induction k with
+  | zero => intro d _; simp [parseRows]
+  | succ k ih =>
+    intro d hp
+    have p0 := hp 0 (by omega) d (Nat.le_refl _) (by omega)
+    have p1 := hp 1 (by omega) d (Nat.le_refl _) (by omega)
+    have p2 := hp 2 (by omega) d (Nat.le_refl _) (by omega)
+    have := ih (d + 1) (fun i hi e he1 he2 => hp i hi e (by omega) (by omega))
+    rw [List.range'_succ]
+    simp only [List.map_cons, parseRows, p0, p1, p2, this]
+
+/-- what a successful parse says about the tokens -/
+theorem parseRows_inv : ∀ (l0 l1 l2 : List String) (rows : List Nat × List Nat × List Nat),
+    parseRows l0 l1 l2 = .ok rows → l0.length = l1.length → l1.length = l2.length →
+    ∀ e, e < l0.length →
+      parseU32 (l0.getD e "") = some (rows.1.getD e 0) ∧
+      parseU32 (l1.getD e "") = some (rows.2.1.getD e 0) ∧
+      parseU32 (l2.getD e "") = some (rows.2.2.getD e 0) := by
+  intro l0
+  induction l0 with
+  | nil => intro _ _ _ _ _ _ e he; cases he
+  | cons t0 r0 ih =>
+    intro l1 l2 rows h h01 h12 e he
+    match l1, l2, h01, h12 with
+    | t1 :: r1, t2 :: r2, h01, h12 =>
+      simp only [parseRows] at h
+      cases p0 : parseU32 t0 with
+      | none => simp [p0] at h
+      | some b0 =>
+        cases p1 : parseU32 t1 with
+        | none => simp [p0, p1] at h
+        | some b1 =>
+          cases p2 : parseU32 t2 with
+          | none => simp [p0, p1, p2] at h
+          | some b2 =>
+            cases pr : parseRows r0 r1 r2 with
+            | error err => simp [p0, p1, p2, pr] at h
+            | ok rows' =>
+              simp only [p0, p1, p2, pr] at h
+              injection h with h
+              subst h
+              cases e with
+              | zero => simp [p0, p1, p2]
+              | succ e =>
+                have := ih r1 r2 rows' pr (by simpa using h01) (by simpa using h12) e (by simpa using he)
+                simpa using this
+
+theorem setLoop_ok (T : Nat → Nat → Nat) :
     ∀ (k d : Nat) (m : Map Val), Sized 3 m → d + k ≤ m.n →
-      (∀ i, i < 3 → ∀ e, d ≤ e → e < d + k → parseU32 (g i e) = some (f i e)) →
-      ∃ m', betasLoop d ((List.range' d k).map (g 0)) ((List.range' d k).map (g 1))
-              ((List.range' d k).map (g 2)) m = .ok m' ∧
+      ∃ m', setLoop T (List.range' d k) m = .ok m' ∧
         Sized 3 m' ∧ m'.n = m.n ∧ m'.u = m.u ∧ m'.a = m.a ∧
-        (∀ i e, m'.β i e = if i < 3 ∧ d ≤ e ∧ e < d + k then f i e else m.β i e) := by
+        (∀ i e, m'.β i e = if i < 3 ∧ d ≤ e ∧ e < d + k then T i e else m.β i e) := by
   intro k
   induction k with
   | zero =>
-    intro d m hs _ _
-    refine ⟨m, by simp [betasLoop], hs, rfl, rfl, rfl, ?_⟩
+    intro d m hs _
+    refine ⟨m, by simp [setLoop], hs, rfl, rfl, rfl, ?_⟩
     intro i e
     have : ¬ (i < 3 ∧ d ≤ e ∧ e < d + 0) := by omega
     rw [if_neg this]
   | succ k ih =>
-    intro d m hs hk hp
+    intro d m hs hk
     have hd : d < m.n := by omega
-    have p0 := hp 0 (by omega) d (Nat.le_refl _) (by omega)
-    have p1 := hp 1 (by omega) d (Nat.le_refl _) (by omega)
-    have p2 := hp 2 (by omega) d (Nat.le_refl _) (by omega)
-    let m1 := ((m.setβ 0 d (f 0 d)).setβ 1 d (f 1 d)).setβ 2 d (f 2 d)
+    let m1 := ((m.setβ 0 d (T 0 d)).setβ 1 d (T 1 d)).setβ 2 d (T 2 d)
     have hs1 : Sized 3 m1 := sized_setβ (sized_setβ (sized_setβ hs _ _ _) _ _ _) _ _ _
     have hn1 : m1.n = m.n := rfl
     obtain ⟨m', hrun, hs', hn', hu', ha', hβ'⟩ := ih (d + 1) m1 hs1 (by rw [hn1]; omega)
-      (fun i hi e he1 he2 => hp i hi e (by omega) (by omega))
     refine ⟨m', ?_, hs', hn'.trans hn1, hu'.trans rfl, ha'.trans rfl, ?_⟩
     · rw [List.range'_succ]
-      simp only [List.map_cons, betasLoop, p0, p1, p2, atomically_setBetas hs hd]
+      simp only [setLoop, atomically_setBetas hs hd]
       exact hrun
     · intro i e
       rw [hβ' i e]
-      have hm1 : m1.β i e = if i < 3 ∧ e = d then f i d else m.β i e :=
-        β_setBetas hs hd (fun i => f i d) i e
+      have hm1 : m1.β i e = if i < 3 ∧ e = d then T i d else m.β i e :=
+        β_setBetas hs hd (fun i => T i d) i e
       by_cases hi : i < 3
       · by_cases c1 : d + 1 ≤ e ∧ e < d + 1 + k
         · have c2 : d ≤ e ∧ e < d + (k + 1) := by omega
@@ -279,19 +327,72 @@ theorem parsed_natTok : ∀ (ids : List Nat), (∀ d ∈ ids, d < u32Bound) → 
   | d :: ds, h => .cons (parseU32_natTok (h d (by simp)))
       (parsed_natTok ds (fun e he => h e (by simp [he])))
 
-theorem parsed_of_all : ∀ (toks : List String), (∀ t ∈ toks, (parseU32 t).isSome = true) →
-    Parsed toks (toks.map fun t => (parseU32 t).getD 0)
-  | [], _ => .nil
-  | t :: ts, h => by
-    have ht := h t (by simp)
-    refine .cons ?_ (parsed_of_all ts (fun e he => h e (by simp [he])))
-    cases hp : parseU32 t with
-    | none => rw [hp] at ht; simp at ht
-    | some v => simp [hp]
+/-- one iteration of the `[UNUSED]` loop: an error, or the flag is set on a free, existing,
+    non-null, not yet removed dart.  Never a panic. -/
+theorem unusedStep_cases {m : Map Val} (hs : Sized 3 m) (t : String) (ts : List String) :
+    (∃ e, unusedLoop (t :: ts) m = .err e) ∨
+    (∃ d, parseU32 t = some d ∧ d ≠ 0 ∧ d < m.n ∧ m.isFree 3 d = true ∧ m.unused d = false ∧
+      unusedLoop (t :: ts) m = unusedLoop ts (m.setU d true)) := by
+  simp only [unusedLoop]
+  cases hp : parseU32 t with
+  | none => exact .inl ⟨_, rfl⟩
+  | some d =>
+    simp only
+    by_cases hg : (d = 0 || decide (m.n ≤ d) || !m.isFree 3 d || m.unused d) = true
+    · rw [if_pos hg]; exact .inl ⟨_, rfl⟩
+    · rw [if_neg hg]
+      simp only [Bool.or_eq_true, decide_eq_true_eq, Bool.not_eq_true', not_or, Bool.not_eq_false,
+        Bool.not_eq_true, Nat.not_le] at hg
+      obtain ⟨⟨⟨h0, hn⟩, hf⟩, hu⟩ := hg
+      refine .inr ⟨d, rfl, h0, hn, hf, hu, ?_⟩
+      rw [removeFreeDart_ok hs hn hf hu]
 
+/-- the `[UNUSED]` loop never panics; on success the flags are those of the named ids, each a
+    free, existing, non-null dart -/
+theorem unusedLoop_total : ∀ (toks : List String) (m : Map Val), Sized 3 m →
+    (∃ e, unusedLoop toks m = .err e) ∨
+    (∃ m', unusedLoop toks m = .ok m' ∧ Sized 3 m' ∧ m'.n = m.n ∧ m'.b = m.b ∧ m'.a = m.a ∧
+      (∀ e, m'.unused e = (m.unused e || decide (e ∈ toks.map fun t => (parseU32 t).getD 0))) ∧
+      (∀ e, m'.unused e = true → m.unused e = true ∨ (e ≠ 0 ∧ e < m.n ∧ m.isFree 3 e = true)) ∧
+      (∀ t ∈ toks, (parseU32 t).isSome = true)) := by
+  intro toks
+  induction toks with
+  | nil =>
+    intro m hs
+    exact .inr ⟨m, by simp [unusedLoop], hs, rfl, rfl, rfl, by simp, fun e he => .inl he, by simp⟩
+  | cons t ts ih =>
+    intro m hs
+    rcases unusedStep_cases hs t ts with h | ⟨d, hp, h0, hn, hf, hu, hstep⟩
+    · exact .inl h
+    · rw [hstep]
+      rcases ih (m.setU d true) (sized_setU hs d true) with h | ⟨m', hrun, hs', hn', hb', ha', hfl, hfr, hnum⟩
+      · exact .inl h
+      · refine .inr ⟨m', hrun, hs', hn'.trans rfl, hb'.trans rfl, ha'.trans rfl, ?_, ?_, ?_⟩
+        · intro e
+          rw [hfl e, Map.unused_setU]
+          have hok : m.okU d = true := okU_of_sized hs hn
+          simp only [List.map_cons, hp, Option.getD_some, List.mem_cons]
+          by_cases he : d = e
+          · subst he; simp [hok]
+          · have : ¬ e = d := fun x => he x.symm
+            simp [he, this]
+        · intro e he
+          rcases hfr e he with h1 | h1
+          · rw [Map.unused_setU] at h1
+            by_cases hde : d = e
+            · subst hde; exact .inr ⟨h0, hn, hf⟩
+            · simp [hde] at h1; exact .inl h1
+          · exact .inr h1
+        · intro t' ht'
+          simp only [List.mem_cons] at ht'
+          rcases ht' with rfl | ht'
+          · rw [hp]; rfl
+          · exact hnum t' ht'
+
+/-- success form (C09): numerals of distinct, non-null, free, existing, not yet removed darts -/
 theorem unusedLoop_ok : ∀ (toks : List String) (ids : List Nat) (m : Map Val),
     Parsed toks ids → ids.Nodup → Sized 3 m →
-    (∀ d ∈ ids, d < m.n ∧ m.isFree 3 d = true ∧ m.unused d = false) →
+    (∀ d ∈ ids, d ≠ 0 ∧ d < m.n ∧ m.isFree 3 d = true ∧ m.unused d = false) →
     ∃ m', unusedLoop toks m = .ok m' ∧ Sized 3 m' ∧ m'.n = m.n ∧ m'.b = m.b ∧ m'.a = m.a ∧
       (∀ e, m'.unused e = (m.unused e || decide (e ∈ ids))) := by
   intro toks ids m hf
@@ -301,21 +402,23 @@ theorem unusedLoop_ok : ∀ (toks : List String) (ids : List Nat) (m : Map Val),
     exact ⟨m, by simp [unusedLoop], hs, rfl, rfl, rfl, by simp⟩
   | @cons t d ts ds htd _ ih =>
     intro hnd hs hall
-    obtain ⟨hdn, hdf, hdu⟩ := hall d (by simp)
+    obtain ⟨hd0, hdn, hdf, hdu⟩ := hall d (by simp)
     have hnd' := List.nodup_cons.mp hnd
     let m1 := m.setU d true
     have hs1 : Sized 3 m1 := sized_setU hs d true
-    have hall1 : ∀ d' ∈ ds, d' < m1.n ∧ m1.isFree 3 d' = true ∧ m1.unused d' = false := by
+    have hall1 : ∀ d' ∈ ds, d' ≠ 0 ∧ d' < m1.n ∧ m1.isFree 3 d' = true ∧ m1.unused d' = false := by
       intro d' hd'
-      obtain ⟨a, b, c⟩ := hall d' (by simp [hd'])
-      refine ⟨a, b, ?_⟩
+      obtain ⟨z, a, b, c⟩ := hall d' (by simp [hd'])
+      refine ⟨z, a, b, ?_⟩
       show (m.setU d true).unused d' = false
       rw [Map.unused_setU]
       have : d ≠ d' := fun e => hnd'.1 (e ▸ hd')
       simp [this, c]
     obtain ⟨m', hrun, hs', hn', hb', ha', hu'⟩ := ih m1 hnd'.2 hs1 hall1
     refine ⟨m', ?_, hs', hn'.trans rfl, hb'.trans rfl, ha'.trans rfl, ?_⟩
-    · simp only [unusedLoop, htd, removeFreeDart_ok hs hdn hdf hdu]
+    · have hg : (d = 0 || decide (m.n ≤ d) || !m.isFree 3 d || m.unused d) = false := by
+        simp [hd0, hdf, hdu]; omega
+      simp only [unusedLoop, htd, hg, removeFreeDart_ok hs hdn hdf hdu]
       exact hrun
     · intro e
       rw [hu' e]
@@ -340,20 +443,115 @@ theorem atomically_forceWriteVertex {m : Map Val} (h : Sized 3 m) (h0 : 0 < m.a.
   unfold atomically forceWriteVertex
   simp [hok]
 
-theorem vertexStep_ok {m : Map Val} (h : Sized 3 m) (h0 : 0 < m.a.size) {tid tx ty : String}
-    {d : Nat} {x y : Rat} (hd : d < m.n) (p1 : parseU32 tid = some d) (p2 : parseCoord tx = some x)
-    (p3 : parseCoord ty = some y) :
-    vertexStep [tid, tx, ty] m = .ok (m.setA 0 d (some (.pt x y 0))) := by
-  simp [vertexStep, writeVertex, p1, p2, p3, atomically_forceWriteVertex h h0 hd]
-
 theorem size_a_setA (m : Map Val) (s d : Nat) (v : Option Val) : (m.setA s d v).a.size = m.a.size := by
   show (wr m.a s (wr (rd m.a s) d v)).size = m.a.size
   rw [size_wr]
 
+theorem writeVertex_ok {m : Map Val} (h : Sized 3 m) (h0 : 0 < m.a.size) {d : Nat} (hd : d < m.n)
+    (v : Val) : writeVertex d v m = .ok (m.setA 0 d (some v)) := by
+  unfold writeVertex
+  rw [atomically_forceWriteVertex h h0 hd]
+
+/-- one `[VERTICES]` line: an error, or the value is written at the id of an existing, non-null,
+    not removed dart.  Never a panic. -/
+theorem vertexStep_cases {m : Map Val} (hs : Sized 3 m) (h0 : 0 < m.a.size) (l : Line) :
+    (∃ e, vertexStep l m = .err e) ∨
+    (∃ v, parseVertexLine l = .ok v ∧ v.1 ≠ 0 ∧ v.1 < m.n ∧ m.unused v.1 = false ∧
+      vertexStep l m = .ok (m.setA 0 v.1 (some (.pt v.2.1 v.2.2 0)))) := by
+  unfold vertexStep
+  cases hp : parseVertexLine l with
+  | error e => exact .inl ⟨_, rfl⟩
+  | ok v =>
+    simp only
+    by_cases hg : (v.1 = 0 || decide (m.n ≤ v.1) || m.unused v.1) = true
+    · rw [if_pos hg]; exact .inl ⟨_, rfl⟩
+    · rw [if_neg hg]
+      simp only [Bool.or_eq_true, decide_eq_true_eq, not_or, Bool.not_eq_true, Nat.not_le] at hg
+      obtain ⟨⟨h1, h2⟩, h3⟩ := hg
+      exact .inr ⟨v, rfl, h1, h2, h3, writeVertex_ok hs h0 h2 _⟩
+
+/-- the slot function denoted by a list of vertex lines: the last line naming an id wins -/
+def applyLine (l : Line) (F : Nat → Option Val) : Nat → Option Val :=
+  match parseVertexLine l with
+  | .ok v => fun e => if e = v.1 then some (.pt v.2.1 v.2.2 0) else F e
+  | .error _ => F
+
+def applyLines : List Line → (Nat → Option Val) → Nat → Option Val
+  | [], F => F
+  | l :: ls, F => applyLines ls (applyLine l F)
+
+/-- the `[VERTICES]` loop never panics; on success the vertex storage is the text's (last line
+    wins), nothing else changes -/
+theorem verticesLoop_total : ∀ (ls : List Line) (m : Map Val), Sized 3 m → 0 < m.a.size →
+    (∃ e, verticesLoop ls m = .err e) ∨
+    (∃ m', verticesLoop ls m = .ok m' ∧ Sized 3 m' ∧ 0 < m'.a.size ∧ m'.n = m.n ∧ m'.b = m.b ∧
+      m'.u = m.u ∧ (∀ e, m'.att 0 e = applyLines ls (m.att 0) e) ∧
+      (∀ s e, s ≠ 0 → m'.att s e = m.att s e) ∧
+      (∀ l ∈ ls, ∃ v, parseVertexLine l = .ok v ∧ v.1 ≠ 0 ∧ v.1 < m.n ∧ m.unused v.1 = false)) := by
+  intro ls
+  induction ls with
+  | nil =>
+    intro m hs h0
+    exact .inr ⟨m, by simp [verticesLoop], hs, h0, rfl, rfl, rfl, fun _ => rfl, fun _ _ _ => rfl,
+      by simp⟩
+  | cons l ls ih =>
+    intro m hs h0
+    rcases vertexStep_cases hs h0 l with ⟨e, he⟩ | ⟨v, hp, h1, h2, h3, hstep⟩
+    · exact .inl ⟨e, by simp only [verticesLoop, he]⟩
+    · let m1 := m.setA 0 v.1 (some (.pt v.2.1 v.2.2 0))
+      have hs1 : Sized 3 m1 := sized_setA hs _ _ _
+      have h01 : 0 < m1.a.size := by rw [size_a_setA]; exact h0
+      have hok : m.okA 0 v.1 = true := okA0_of_sized hs h0 h2
+      rcases ih m1 hs1 h01 with ⟨e, he⟩ | ⟨m', hrun, hs', h0', hn', hb', hu', hatt, hoth, hall⟩
+      · exact .inl ⟨e, by simp only [verticesLoop, hstep]; exact he⟩
+      · refine .inr ⟨m', by simp only [verticesLoop, hstep]; exact hrun, hs', h0', hn'.trans rfl,
+          hb'.trans rfl, hu'.trans rfl, ?_, ?_, ?_⟩
+        · intro e
+          rw [hatt e]
+          show applyLines ls (m1.att 0) e = applyLines ls (applyLine l (m.att 0)) e
+          have : m1.att 0 = applyLine l (m.att 0) := by
+            funext x
+            show (m.setA 0 v.1 (some (.pt v.2.1 v.2.2 0))).att 0 x = _
+            rw [Map.att_setA]
+            unfold applyLine
+            rw [hp]
+            by_cases hx : x = v.1
+            · subst hx; simp [hok]
+            · have : ¬ v.1 = x := fun h => hx h.symm
+              simp [hx, this]
+          rw [this]
+        · intro s e hs0
+          rw [hoth s e hs0]
+          show (m.setA 0 v.1 _).att s e = m.att s e
+          rw [Map.att_setA]
+          have : ¬ 0 = s := fun h => hs0 h.symm
+          simp [this]
+        · intro l' hl'
+          simp only [List.mem_cons] at hl'
+          rcases hl' with rfl | hl'
+          · exact ⟨v, hp, h1, h2, h3⟩
+          · exact hall l' hl'
+
+theorem parseVertexLine_ok {tid tx ty : String} {d : Nat} {x y : Rat} (p1 : parseU32 tid = some d)
+    (p2 : parseCoord tx = some x) (p3 : parseCoord ty = some y) :
+    parseVertexLine [tid, tx, ty] = .ok (d, x, y) := by
+  simp [parseVertexLine, p1, p2, p3]
+
+theorem vertexStep_ok {m : Map Val} (h : Sized 3 m) (h0 : 0 < m.a.size) {tid tx ty : String}
+    {d : Nat} {x y : Rat} (hd0 : d ≠ 0) (hd : d < m.n) (hu : m.unused d = false)
+    (p1 : parseU32 tid = some d) (p2 : parseCoord tx = some x) (p3 : parseCoord ty = some y) :
+    vertexStep [tid, tx, ty] m = .ok (m.setA 0 d (some (.pt x y 0))) := by
+  unfold vertexStep
+  rw [parseVertexLine_ok p1 p2 p3]
+  have hg : (d = 0 || decide (m.n ≤ d) || m.unused d) = false := by simp [hd0, hu]; omega
+  simp only [hg]
+  exact writeVertex_ok h h0 hd _
+
+/-- success form (C09) -/
 theorem verticesLoop_ok (gid gx gy : Nat → String) (fx fy : Nat → Rat) :
     ∀ (vs : List Nat) (m : Map Val), Sized 3 m → 0 < m.a.size → vs.Nodup →
-      (∀ v ∈ vs, v < m.n ∧ parseU32 (gid v) = some v ∧ parseCoord (gx v) = some (fx v) ∧
-        parseCoord (gy v) = some (fy v)) →
+      (∀ v ∈ vs, v ≠ 0 ∧ v < m.n ∧ m.unused v = false ∧ parseU32 (gid v) = some v ∧
+        parseCoord (gx v) = some (fx v) ∧ parseCoord (gy v) = some (fy v)) →
       ∃ m', verticesLoop (vs.map fun v => [gid v, gx v, gy v]) m = .ok m' ∧ Sized 3 m' ∧
         0 < m'.a.size ∧ m'.n = m.n ∧ m'.b = m.b ∧ m'.u = m.u ∧
         (∀ s e, m'.att s e = if s = 0 ∧ e ∈ vs then some (.pt (fx e) (fy e) 0) else m.att s e) := by
@@ -364,7 +562,7 @@ theorem verticesLoop_ok (gid gx gy : Nat → String) (fx fy : Nat → Rat) :
     exact ⟨m, by simp [verticesLoop], hs, h0, rfl, rfl, rfl, by simp⟩
   | cons v vs ih =>
     intro m hs h0 hnd hall
-    obtain ⟨hv, p1, p2, p3⟩ := hall v (by simp)
+    obtain ⟨hv0, hv, hvu, p1, p2, p3⟩ := hall v (by simp)
     have hnd' := List.nodup_cons.mp hnd
     let m1 := m.setA 0 v (some (.pt (fx v) (fy v) 0))
     have hs1 : Sized 3 m1 := sized_setA hs _ _ _
@@ -372,7 +570,7 @@ theorem verticesLoop_ok (gid gx gy : Nat → String) (fx fy : Nat → Rat) :
     obtain ⟨m', hrun, hs', h0', hn', hb', hu', ha'⟩ := ih m1 hs1 h01 hnd'.2
       (fun w hw => hall w (by simp [hw]))
     refine ⟨m', ?_, hs', h0', hn'.trans rfl, hb'.trans rfl, hu'.trans rfl, ?_⟩
-    · simp only [List.map_cons, verticesLoop, vertexStep_ok hs h0 hv p1 p2 p3]
+    · simp only [List.map_cons, verticesLoop, vertexStep_ok hs h0 hv0 hv hvu p1 p2 p3]
       exact hrun
     · intro s e
       rw [ha' s e]
@@ -390,92 +588,6 @@ theorem verticesLoop_ok (gid gx gy : Nat → String) (fx fy : Nat → Rat) :
             simp [he, hev, this]
       · have : ¬ 0 = s := fun x => hs0 x.symm
         simp [hs0, this]
-
-/-! ### frame / inversion lemmas (used when success is a hypothesis) -/
-
-theorem unusedLoop_frame : ∀ (toks : List String) (m m' : Map Val), Sized 3 m →
-    unusedLoop toks m = .ok m' →
-    Sized 3 m' ∧ m'.n = m.n ∧ m'.b = m.b ∧ m'.a = m.a ∧
-      (∀ e, m'.unused e = true → m.unused e = true ∨ (e < m.n ∧ m.isFree 3 e = true)) := by
-  intro toks
-  induction toks with
-  | nil =>
-    intro m m' hs h
-    simp [unusedLoop] at h
-    subst h
-    exact ⟨hs, rfl, rfl, rfl, fun e he => .inl he⟩
-  | cons t ts ih =>
-    intro m m' hs h
-    simp only [unusedLoop] at h
-    cases hp : parseU32 t with
-    | none => simp [hp] at h
-    | some d =>
-      simp only [hp] at h
-      by_cases hd : d < m.n
-      · by_cases hf : m.isFree 3 d = true
-        · cases hu : m.unused d with
-          | true =>
-            have hok : m.okU d = true := okU_of_sized hs hd
-            simp [Map.removeFreeDart, hd, hf, atomically, removeFreeDartTx, hok, hu] at h
-          | false =>
-            rw [removeFreeDart_ok hs hd hf hu] at h
-            simp only at h
-            obtain ⟨a, b, c, d', e'⟩ := ih (m.setU d true) m' (sized_setU hs d true) h
-            refine ⟨a, b.trans rfl, c.trans rfl, d'.trans rfl, ?_⟩
-            intro e he
-            rcases e' e he with h1 | h1
-            · rw [Map.unused_setU] at h1
-              by_cases hde : d = e
-              · subst hde; exact .inr ⟨hd, hf⟩
-              · simp [hde] at h1; exact .inl h1
-            · exact .inr h1
-        · simp [Map.removeFreeDart, hd, hf] at h
-      · simp [Map.removeFreeDart, hd] at h
-
-theorem writeVertex_frame {m m' : Map Val} {d : Nat} {v : Val} (hs : Sized 3 m)
-    (h : writeVertex d v m = .ok m') :
-    Sized 3 m' ∧ m'.n = m.n ∧ m'.b = m.b ∧ m'.u = m.u := by
-  unfold writeVertex atomically forceWriteVertex at h
-  by_cases hok : m.okA 0 d = true
-  · simp [hok] at h
-    subst h
-    exact ⟨sized_setA hs _ _ _, rfl, rfl, rfl⟩
-  · simp [hok] at h
-
-theorem vertexStep_frame {l : Line} {m m' : Map Val} (hs : Sized 3 m) (h : vertexStep l m = .ok m') :
-    Sized 3 m' ∧ m'.n = m.n ∧ m'.b = m.b ∧ m'.u = m.u := by
-  unfold vertexStep at h
-  split at h <;> try (simp at h)
-  split at h <;> try (simp at h)
-  split at h <;> try (simp at h)
-  split at h <;> try (simp at h)
-  split at h <;> try (simp at h)
-  split at h <;> try (simp at h)
-  split at h <;> try (simp at h)
-  exact writeVertex_frame hs h
-
-theorem verticesLoop_frame : ∀ (ls : List Line) (m m' : Map Val), Sized 3 m →
-    verticesLoop ls m = .ok m' → Sized 3 m' ∧ m'.n = m.n ∧ m'.b = m.b ∧ m'.u = m.u := by
-  intro ls
-  induction ls with
-  | nil =>
-    intro m m' hs h
-    simp [verticesLoop] at h
-    subst h
-    exact ⟨hs, rfl, rfl, rfl⟩
-  | cons l ls ih =>
-    intro m m' hs h
-    simp only [verticesLoop] at h
-    cases hv : vertexStep l m with
-    | ok m1 =>
-      rw [hv] at h
-      simp only at h
-      obtain ⟨a, b, c, d⟩ := vertexStep_frame hs hv
-      obtain ⟨a', b', c', d'⟩ := ih m1 m' a h
-      exact ⟨a', b'.trans b, c'.trans c, d'.trans d⟩
-    | err e => rw [hv] at h; simp at h
-    | retry => rw [hv] at h; simp at h
-    | panic => rw [hv] at h; simp at h
 
 /-! ## D. the section parser on a serialization -/
 
@@ -818,11 +930,15 @@ theorem filterMap_congr' {α β : Type} {f g : α → Option β} : ∀ (l : List
     rw [List.filterMap_cons, List.filterMap_cons, h a (by simp),
       filterMap_congr' l (fun b hb => h b (by simp [hb]))]
 
-/-- `build` from the results of its three loops -/
-theorem build_of_stages {ns : Nat} {cf : CFile} {l0 l1 l2 : Line} {m1 m2 m3 : Map Val}
+/-- `build` from the results of its stages -/
+theorem build_of_stages {ns : Nat} {cf : CFile} {l0 l1 l2 : Line}
+    {rows : List Nat × List Nat × List Nat} {m1 m2 m3 : Map Val}
     (hd : cf.dim = 2) (hb : cf.betas = [l0, l1, l2]) (h0 : l0.length = cf.nd + 1)
     (h1 : l1.length = cf.nd + 1) (h2 : l2.length = cf.nd + 1)
-    (r1 : betasLoop 1 (l0.drop 1) (l1.drop 1) (l2.drop 1) (Map.empty 3 ns (cf.nd + 1)) = .ok m1)
+    (hr : parseRows l0 l1 l2 = .ok rows) (hnull : nullOK (tbl rows) = true)
+    (hrange : rangeOK (tbl rows) (cf.nd + 1) = true)
+    (hchk : (List.range' 1 cf.nd).findSome? (dartCheck (tbl rows)) = none)
+    (r1 : setLoop (tbl rows) (List.range' 1 cf.nd) (Map.empty 3 ns (cf.nd + 1)) = .ok m1)
     (r2 : unusedLoop ((cf.unused.getD []).flatten) m1 = .ok m2)
     (r3 : verticesLoop (cf.vertices.getD []) m2 = .ok m3) : build ns cf = .ok m3 := by
   unfold build
@@ -830,8 +946,7 @@ theorem build_of_stages {ns : Nat} {cf : CFile} {l0 l1 l2 : Line} {m1 m2 m3 : Ma
   simp only [hb]
   rw [if_neg (by rw [h0]; exact fun h => h rfl), if_neg (by rw [h1]; exact fun h => h rfl),
     if_neg (by rw [h2]; exact fun h => h rfl)]
-  simp only [r1, r2, r3]
-
+  simp only [hr, hnull, hrange, hchk, r1, r2, r3, Bool.not_true, Bool.false_eq_true, if_false]
 
 /-! ## G. facts used by the validator soundness (C10) -/
 
@@ -843,21 +958,6 @@ theorem drop1_eq_map (l : List String) :
     simp only [List.getElem_drop, List.getElem_map, List.getElem_range']
     have hk : 1 + k < l.length := by simp at h1; omega
     simp [List.getD_eq_getElem?_getD, hk]
-
-theorem verticesLoop_succeeds : ∀ (ls : List Line) (m : Map Val), Sized 3 m → 0 < m.a.size →
-    (∀ l ∈ ls, ∃ tid tx ty id x y, l = [tid, tx, ty] ∧ parseU32 tid = some id ∧
-      parseCoord tx = some x ∧ parseCoord ty = some y ∧ id < m.n) →
-    ∃ m', verticesLoop ls m = .ok m' := by
-  intro ls
-  induction ls with
-  | nil => intro m _ _ _; exact ⟨m, by simp [verticesLoop]⟩
-  | cons l ls ih =>
-    intro m hs h0 hall
-    obtain ⟨tid, tx, ty, id, x, y, rfl, p1, p2, p3, hid⟩ := hall l (by simp)
-    have hstep := vertexStep_ok hs h0 hid p1 p2 p3
-    obtain ⟨m', hm'⟩ := ih (m.setA 0 id (some (.pt x y 0))) (sized_setA hs _ _ _)
-      (by rw [size_a_setA]; exact h0) (fun l' hl' => hall l' (by simp [hl']))
-    exact ⟨m', by simp only [verticesLoop, hstep]; exact hm'⟩
 
 /-! ## H. the exact-rational coordinate text reads back as the same rational -/
 
